@@ -947,12 +947,15 @@ func lookupModel(fn *ssa.Function) (modelFn, bool) {
 			return func(e *Engine, st *State, args []Value, call *ssa.Call, pos token.Pos) Value {
 				n := concInt(args[1], "vChoice n")
 				name := strArg(args[0])
-				if pin, ok := e.pins[name]; ok { // pinned by the harness instance (work splitting)
-					key := st.nextKey(name)
+				key := st.nextKey(name)
+				pin, ok := e.pins[key] // one occurrence pinned ("name#k") ...
+				if !ok {
+					pin, ok = e.pins[name] // ... or every occurrence ("name"): work splitting between instances
+				}
+				if ok {
 					st.choices[key] = pin
 					return BV(64, uint64(pin))
 				}
-				key := st.nextKey(name)
 				conds := make([]*Term, n)
 				for k := range conds {
 					conds[k] = Bool(true)
